@@ -17,7 +17,7 @@ import (
 type RecvPeer struct {
 	End      *xport.End
 	Done     chan error
-	IsClient bool      // the real receiver is the client side
+	IsClient bool       // the real receiver is the client side
 	In       *wirekit.R // requests from the receiver
 	Out      *wirekit.W // our answers
 	Demux    *wirekit.Demux
